@@ -19,9 +19,15 @@ import (
 type cfg struct {
 	be   string
 	n, t int
+	ids  []uint16 // the committee as listed to Init, if not 1..n
 }
 
-func (k cfg) String() string { return fmt.Sprintf("%s%s/n%dt%d", buildPrefix, k.be, k.n, k.t) }
+func (k cfg) String() string {
+	if k.ids != nil {
+		return fmt.Sprintf("%s%s/n%dt%d/ids%v", buildPrefix, k.be, k.n, k.t, k.ids)
+	}
+	return fmt.Sprintf("%s%s/n%dt%d", buildPrefix, k.be, k.n, k.t)
+}
 
 // otherKey: a well-formed public key unrelated to the real one (consistent commit + reveal).
 func otherKey(be string) []byte {
@@ -205,6 +211,10 @@ func rotateIdx(n int) []int {
 
 func algebraCase(k cfg, reps int) harness.Case {
 	return harness.Case{ID: "algebra/" + k.String(), Run: func(c *harness.C) {
+		if k.ids != nil {
+			cryptolib.Parties = k.ids
+			defer func() { cryptolib.Parties = nil }()
+		}
 		for rep := 0; rep < reps; rep++ {
 			c.Exec(fmt.Sprintf("[algebra] %v rep %d", k, rep))
 			shares, errs := cryptolib.DKG(k.be, k.n, k.t, 1, nil, 20*time.Second)
@@ -337,10 +347,24 @@ func gen(c *harness.C) []harness.Case {
 	cases = append(cases, dealCases(c)...)
 	for _, nt := range [][2]int{{3, 2}, {4, 2}, {4, 3}, {3, 3}} {
 		if haveBLS {
-			cases = append(cases, rekeyCase(cfg{"bls", nt[0], nt[1]}))
+			cases = append(cases, rekeyCase(cfg{be: "bls", n: nt[0], t: nt[1]}))
 		}
 		if nt[0] <= 3 || c.Thorough() {
-			cases = append(cases, rekeyCase(cfg{"ps", nt[0], nt[1]}))
+			cases = append(cases, rekeyCase(cfg{be: "ps", n: nt[0], t: nt[1]}))
+		}
+	}
+	// committees that are not 1..n in ascending order: permuted, sparse, both
+	for _, ids := range [][]uint16{{3, 1, 2}, {2, 3, 1}, {20, 7, 12}, {5, 7, 9}, {4, 2, 1, 3}, {300, 7, 2, 41}} {
+		for t := 2; t <= len(ids); t++ {
+			if !c.Thorough() && t != 2 && t != len(ids) {
+				continue
+			}
+			if haveBLS {
+				cases = append(cases, algebraCase(cfg{"bls", len(ids), t, ids}, 1))
+			}
+			if len(ids) <= 3 || c.Thorough() {
+				cases = append(cases, algebraCase(cfg{"ps", len(ids), t, ids}, 1))
+			}
 		}
 	}
 	for n := 2; n <= maxN; n++ {
@@ -350,20 +374,20 @@ func gen(c *harness.C) []harness.Case {
 				reps = 1
 			}
 			if haveBLS {
-				cases = append(cases, algebraCase(cfg{"bls", n, t}, reps))
+				cases = append(cases, algebraCase(cfg{be: "bls", n: n, t: t}, reps))
 				if t < n {
-					cases = append(cases, offCase(cfg{"bls", n, t}))
+					cases = append(cases, offCase(cfg{be: "bls", n: n, t: t}))
 				}
 			}
 			if n <= maxPS {
-				cases = append(cases, algebraCase(cfg{"ps", n, t}, 2))
+				cases = append(cases, algebraCase(cfg{be: "ps", n: n, t: t}, 2))
 				if t < n {
-					cases = append(cases, offCase(cfg{"ps", n, t}))
+					cases = append(cases, offCase(cfg{be: "ps", n: n, t: t}))
 				}
 			} else if n <= maxPS+3 && t < n && (t == 2 || t == n/2) {
 				// every position of an off-polynomial key also for sizes where the first and the last
 				// t-subset do not cover all parties (n >= 2t+1)
-				cases = append(cases, offCase(cfg{"ps", n, t}))
+				cases = append(cases, offCase(cfg{be: "ps", n: n, t: t}))
 			}
 		}
 	}
